@@ -93,7 +93,21 @@ if mode.startswith("retry"):
     except BaseException as exc:  # noqa
         out["first_attempt"] = repr(exc)[:300]
 try:
+    if os.environ.get("RTM_C18_SYSTEM"):
+        # the packaging path: core.precompile_dlls builds with make_dll(system=True) into the cache directory
+        from sasmodels import generate
+        info_ = core.load_model_info(model_name)
+        src_ = generate.make_source(info_)["dll"]
+        kerneldll.make_dll(src_, info_, dtype=np.dtype("d"), system=True)
     model = core.load_model(model_name)
+    if os.environ.get("RTM_C18_EDITIONS"):
+        # a second generated source for the same model id (another integration size) is built and used while the
+        # first model is held unopened; the first is evaluated afterwards
+        from sasmodels import generate
+        info2 = core.load_model_info(model_name)
+        generate.set_integration_size(info2, int(os.environ["RTM_C18_EDITIONS"]))
+        model2 = core.build_model(info2)
+        out["second_edition"] = [float(v) for v in direct_model.call_kernel(model2.make_kernel([np.array([0.01, 0.05, 0.2])]), {})]
     q = np.array([0.01, 0.05, 0.2])
     kernel = model.make_kernel([q])
     pars = {"radius": 40.0, "radius_pd": 0.1, "radius_pd_n": 5} if model_name == "sphere" else {}
